@@ -547,4 +547,104 @@ theorem w2_notifs {s s0 : St} {l : Label} (h : step0 s l = some s0) (hl : l.reqL
               retireIn_unotifs, retireIn_cnotifs, markBroken_unotifs, markBroken_cnotifs])
          | split))
 
+/-! ### the general preservation lemma -/
+
+theorem mem_of_getCall {s : St} {n : Nat} {c : Call} (h : getCall s n = some c) : c ∈ s.calls :=
+  List.mem_of_getElem? (calls_get h)
+
+theorem getCall_of_mem {s : St} {c : Call} (h : c ∈ s.calls) : ∃ n, getCall s n = some c := by
+  obtain ⟨j, hj⟩ := List.getElem?_of_mem h
+  exact ⟨j + 1, by simp [getCall_eq, hj]⟩
+
+theorem mem_of_getNotif {s : St} {w : Who} {nf : Notif} (h : getNotif s w = some nf) : nf ∈ s.unotifs ∨ nf ∈ s.cnotifs := by
+  cases w <;> simp only [getNotif] at h
+  · cases h
+  · exact Or.inl (List.mem_of_getElem? h)
+  · exact Or.inr (List.mem_of_getElem? h)
+  · cases h
+
+theorem getNotif_of_mem_u {s : St} {nf : Notif} (h : nf ∈ s.unotifs) : ∃ w, getNotif s w = some nf := by
+  obtain ⟨j, hj⟩ := List.getElem?_of_mem h
+  exact ⟨.unotif j, hj⟩
+
+theorem getNotif_of_mem_c {s : St} {nf : Notif} (h : nf ∈ s.cnotifs) : ∃ w, getNotif s w = some nf := by
+  obtain ⟨j, hj⟩ := List.getElem?_of_mem h
+  exact ⟨.cnotif j, hj⟩
+
+/-- The general preservation lemma for steps that leave `cores`/`byID` alone and change `metas` only by
+cancelling contexts (cause peer/read/write), while the monitor at most marks `peerCancelled`. -/
+theorem monreqs_frame {m m' : Mon} {s s0 : St} (mr : MonReqs m s)
+    (hlen : m'.reqs.length = m.reqs.length) (hidx : m'.idx = m.idx)
+    (hrxs : m.rxSeen = true → m'.rxSeen = true) (hbs : m.brokenSeen = true → m'.brokenSeen = true)
+    (hcores : s0.cores = s.cores) (hby : s0.byID = s.byID)
+    (hwe : s.writeErr = true → s0.writeErr = true)
+    (hbw : s0.writeErr = true → s.writeErr = true ∨ m'.brokenSeen = true)
+    (hm : ∀ (r : Nat) (mt0 : ReqMeta), s0.metas[r]? = some mt0 → ∃ mt, s.metas[r]? = some mt ∧
+      (mt0 = mt ∨ (mt.cancelled = none ∧ ∃ c, mt0 = { mt with cancelled := some c } ∧ c ≠ .finished ∧
+        (c = .peer → ∀ q', m'.reqs[r]? = some q' → q'.peerCancelled = true) ∧
+        (c = .read → m'.rxSeen = true) ∧ (c = .write → s0.writeErr = true))))
+    (hq : ∀ (r : Nat) (q' : MReq), m'.reqs[r]? = some q' → ∃ q, m.reqs[r]? = some q ∧
+      (q' = q ∨ (q' = { q with peerCancelled := true } ∧ ∀ mt0, s0.metas[r]? = some mt0 → mt0.cancelled.isSome = true)))
+    (hbc : Le (m'.brokenSeen = true) IsW2c s0.calls s.calls)
+    (hbu : Le (m'.brokenSeen = true) IsW2n s0.unotifs s.unotifs)
+    (hbx : Le (m'.brokenSeen = true) IsW2n s0.cnotifs s.cnotifs) : MonReqs m' s0 := by
+  refine ⟨by rw [hlen, hcores]; exact mr.nreqs, by rw [hidx, hby]; exact mr.idx, ?_, ?_, ?_, ?_, ?_, ?_, ?_⟩
+  · -- rx
+    intro r mt0 h0 hc
+    obtain ⟨mt, hmt, hcase⟩ := hm r mt0 h0
+    rcases hcase with rfl | ⟨_, c, rfl, _, _, hr, _⟩
+    · exact hrxs (mr.rx r _ hmt hc)
+    · simp only [Option.some.injEq] at hc; exact hr hc
+  · -- bc
+    intro n c e hg hpc
+    rcases hbc c (mem_of_getCall hg) ⟨e, hpc⟩ with h | ⟨c', hc', e', he'⟩
+    · exact h
+    · obtain ⟨n', hn'⟩ := getCall_of_mem hc'
+      exact hbs (mr.bc n' c' e' hn' he')
+  · -- bn
+    intro w nf e hg hpc
+    rcases mem_of_getNotif hg with hu | hx
+    · rcases hbu nf hu ⟨e, hpc⟩ with h | ⟨nf', hnf', e', he'⟩
+      · exact h
+      · obtain ⟨w', hw'⟩ := getNotif_of_mem_u hnf'
+        exact hbs (mr.bn w' nf' e' hw' he')
+    · rcases hbx nf hx ⟨e, hpc⟩ with h | ⟨nf', hnf', e', he'⟩
+      · exact h
+      · obtain ⟨w', hw'⟩ := getNotif_of_mem_c hnf'
+        exact hbs (mr.bn w' nf' e' hw' he')
+  · -- bk
+    intro r k e hk hpc
+    rw [hcores] at hk
+    exact hbs (mr.bk r k e hk hpc)
+  · -- bw
+    intro h
+    rcases hbw h with h | h
+    · exact hbs (mr.bw h)
+    · exact h
+  · -- bx
+    intro r mt0 h0 hc
+    obtain ⟨mt, hmt, hcase⟩ := hm r mt0 h0
+    rcases hcase with rfl | ⟨_, c, rfl, _, _, _, hw⟩
+    · exact hwe (mr.bx r _ hmt hc)
+    · simp only [Option.some.injEq] at hc; exact hw hc
+  · -- req
+    intro r q' k mt0 hq' hk h0
+    rw [hcores] at hk
+    obtain ⟨mt, hmt, hcase⟩ := hm r mt0 h0
+    obtain ⟨q, hq0, hqcase⟩ := hq r q' hq'
+    have rr := mr.req r q k mt hq0 hk hmt
+    rcases hcase with rfl | ⟨hnone, c, rfl, hnf, hpeer, _, _⟩
+    · rcases hqcase with rfl | ⟨rfl, hcs⟩
+      · exact rr
+      · exact ⟨rr.id, rr.idk, rr.cancelKind, rr.kind, rr.dupa, rr.w1, rr.ok, rr.p1, rr.st, rr.run, rr.asyncd, rr.p2done,
+          rr.late, fun _ => hcs _ h0, fun _ => rfl, rr.seen, rr.cfin⟩
+    · have hpc' : q'.peerCancelled = true → True := fun _ => trivial
+      rcases hqcase with rfl | ⟨rfl, hcs⟩
+      · exact ⟨rr.id, rr.idk, rr.cancelKind, rr.kind, rr.dupa, rr.w1, rr.ok, rr.p1, rr.st, rr.run, rr.asyncd, rr.p2done,
+          rr.late, fun _ => rfl, fun hc => hpeer (by simpa using hc) _ hq', rr.seen,
+          fun hc => absurd (by simpa using hc) hnf⟩
+      · exact ⟨rr.id, rr.idk, rr.cancelKind, rr.kind, rr.dupa, rr.w1, rr.ok, rr.p1, rr.st, rr.run, rr.asyncd, rr.p2done,
+          rr.late, fun _ => rfl, fun _ => rfl, rr.seen, fun hc => absurd (by simpa using hc) hnf⟩
+
+
 end Conn
